@@ -568,3 +568,45 @@ func H_overflow_ctl() {
 	verifAssert(w.Close() == nil, "Close")
 	verifReach("overflow-ctl")
 }
+
+// C09/C07: the reader is held up by a slow consumer in the middle of a batch
+// ([IN_DELETE_SELF wd][IN_IGNORED wd]); meanwhile the deleted path is re-created
+// and added again. The old watch's IN_IGNORED must not take the new watch down.
+func H_readd_midbatch() {
+	verifKReset()
+	w := verifNewInotifyN(0, 0, 0)
+	verifSetupTable(w, 2)
+	verifK.nIno = 3
+	verifAssume(verifK.marks[1].state == kDying)
+	n := verifInt("n")
+	verifAssume(n == 32)
+	verifK.script[0] = verifRead{n: n}
+	verifK.nScript = 1
+	verifK.blockAfter = true
+	e := verifTable[1] // "/t/a" has a watched parent, "/u/b"-like paths are covered by the other population
+	if verifParam("TABLEB") != 0 {
+		e = verifTable[0]
+	}
+	verifFillBuffer = func(i int, b []byte, n int) {
+		if i == 0 {
+			verifConstrainRecords(b, n, 2, 16, false)
+			verifAssume(verifRecs[0].mask == unix.IN_ATTRIB && uint32(verifRecs[0].wd) == e.wd && verifRecs[0].ln == 0)
+			verifAssume(verifRecs[1].mask == unix.IN_IGNORED && uint32(verifRecs[1].wd) == e.wd && verifRecs[1].ln == 0)
+		}
+	}
+	go w.readEvents()
+	verifQuiesce() // the reader is parked offering the first event (Chmod: the file was unlinked)
+	verifK.addResolve = 2
+	verifAssert(w.Add(e.path) == nil, "re-Add of the re-created path while the batch is only half handled")
+	nwd := uint32(verifK.nextWd)
+	ev := <-w.Events
+	verifAssert(ev.Name == e.path && ev.Op == Chmod, "first event of the batch")
+	verifQuiesce() // the reader handles the old watch's IN_IGNORED
+	verifAssert(verifInList(w.WatchList(), e.path), "the re-added path stays listed after the old watch's IN_IGNORED")
+	w.mu.Lock()
+	ww := w.watches.wd[nwd]
+	w.mu.Unlock()
+	verifAssert(ww != nil && ww.path == e.path, "the new watch stays in place")
+	verifAssert(w.Close() == nil, "Close")
+	verifReach("readd-midbatch")
+}
